@@ -21,7 +21,7 @@ var (
 	ccount = flag.Int("ccount", 0, "scripts per child")
 )
 
-var cls = []uint8{0, 1, 2, 10, 204, 205, 206, 254}
+var cls = []uint8{0, 0, 0, 1, 2, 10, 204, 205, 206, 254}
 
 func script(seed int64, idx int) {
 	rng := rand.New(rand.NewSource(seed))
@@ -50,7 +50,7 @@ func script(seed int64, idx int) {
 	for st := 0; st < nSteps; st++ {
 		switch x := rng.Intn(20); {
 		case x < 7: // new block with 1-3 transactions (x == 7: staggered pattern below)
-			fresh := rng.Intn(3) == 0
+			fresh := rng.Intn(2) == 0
 			n := 1 + rng.Intn(3)
 			w.Sim.Mutate("emit", func(s *alphsim.Sim) {
 				b := w.NewBlock(s, fresh)
@@ -62,6 +62,25 @@ func script(seed int64, idx int) {
 					vlib.CCount("events_"+kind, 1)
 				}
 			})
+		case x == 8 && rng.Intn(2) == 0: // one transaction with two messages of different consistency levels, re-observed in between
+			var blk *alphsim.Block
+			var tx string
+			cl2 := []uint8{5, 10, 204}[rng.Intn(3)]
+			w.Sim.Mutate("emit-two-in-one-tx", func(s *alphsim.Sim) {
+				blk = w.NewBlock(s, false)
+				tx = w.EmitTx2(s, blk, 0, cl2)
+			})
+			w.Tr(fmt.Sprintf("emit tx %s with two messages (consistency 0 and %d) in block %s height %d", tx[:8], cl2, blk.Hash[:8], blk.Height))
+			vlib.CCount("two_message_transactions", 1)
+			if !wait(3) {
+				break
+			}
+			w.Tr("reobserve " + tx[:8] + " (second message not final yet)")
+			if !w.H.Reobserve(tx, 25*time.Second) {
+				vlib.CFinding("reobserve:request-not-handled-within-watchdog", map[string]interface{}{"script": desc, "trace": w.Trace})
+				return
+			}
+			vlib.CCount("reobservation_requests", 1)
 		case x == 7: // staggered confirmations inside one block, with a reorg in between
 			var blk *alphsim.Block
 			clLate := []uint8{2, 5, 10}[rng.Intn(3)]
